@@ -209,7 +209,7 @@ def hex_from_double(value: float | None, factor: int = 1) -> HexStr4:
         return "7FFF"
     if not isinstance(value, float | int):
         raise ValueError(f"Invalid value: {value}, is not a double (a float/int)")
-    return f"{int(value * factor):04X}"
+    return f"{int(round(value * factor)):04X}"
 
 
 def hex_to_dtm(value: HexStr12 | HexStr14) -> str | None:  # from parsers
@@ -347,7 +347,7 @@ def hex_from_percent(value: float | None, high_res: bool = True) -> HexStr2:
         return "EF"
     if not isinstance(value, float | int) or not 0 <= value <= 1:
         raise ValueError(f"Invalid value: {value}, is not a percentage")
-    result = int(value * (200 if high_res else 100))
+    result = int(round(value * (200 if high_res else 100)))
     return f"{result:02X}"
 
 
@@ -394,7 +394,9 @@ def hex_from_temp(value: bool | float | None) -> HexStr4:
         raise TypeError(f"Invalid temp: {value} is not a float")
     # if not -(2**7) <= value < 2**7:  # TODO: tighten range
     #     raise ValueError(f"Invalid temp: {value} is out of range")
-    temp = int(value * 100)
+    temp = int(round(value * 100))
+    if not -(2**15) <= temp < 2**15:
+        raise ValueError(f"Invalid temp: {value} is out of range")
     return f"{temp if temp >= 0 else temp + 2 ** 16:04X}"
 
 
